@@ -28,7 +28,11 @@ RULE_ADDED = (
               'signatures of 8..72 bytes; a fifth of the cells with the --iodebug option on '
               ' '
               'Round 8: logging configured as shipped (everything down to DEBUG formatted) in e'
-              'very cell. ')
+              'very cell. '
+              ' '
+              'Round 9: at every step of the sign / advance / update dialogues a well-formed an'
+              'swer carrying each other opcode of the command; success is reported only if the '
+              "device's last answer reported it. ")
 RULE = RULE + " " + RULE_ADDED.strip()
 ASSUMPTIONS = [
     "simulated device + fake HID transport trusted; injected status words carry no data "
@@ -169,6 +173,18 @@ def run_shard(spec, acc):
                           Fault("read_error", processed=True), Fault("badop"),
                           Fault("sw_keep", sw=0x6100), Fault("sw_keep", sw=0x61AB),
                           Fault("sw_keep", sw=0x6C00), Fault("sw_keep", sw=0x6C10)]
+            # ---- a well-formed answer (status 9000) that carries another opcode of the
+            # same command than the step calls for: the device asking for a header after
+            # the last block, announcing brothers in the middle of a header, ...  Whatever
+            # the manager makes of it, success is reported only if the device's last
+            # answer of the dialogue reports success
+            fam = shape_family(roles)
+            if fam and gi % spec["n"] == spec["shard"] % spec["n"]:
+                for k in range(K):
+                    if roles[k].split(".")[0] != fam:
+                        continue
+                    for opc in FAMILY_OPCODES[fam]:
+                        check_misplaced_opcode(acc, shape, v1, k, roles[k], opc, allowed, fam)
             for k in range(K):
                 role = roles[k]
                 for sw in sws:
@@ -179,6 +195,47 @@ def run_shard(spec, acc):
                 for f in others:
                     check_cell(acc, shape, v1, k, role, f, allowed, base_reply, named, by_src,
                                fw_all)
+
+
+FAMILY_OPCODES = {"adv": [0x02, 0x03, 0x04, 0x05, 0x06, 0x07, 0x08, 0x09],
+                  "upd": [0x02, 0x03, 0x04, 0x05, 0x06],
+                  "sign": [0x01, 0x02, 0x04, 0x08, 0x81]}
+SUCCESS_OPCODES = {"adv": (0x05, 0x06), "upd": (0x05, 0x06), "sign": (0x81,)}
+
+
+def shape_family(roles):
+    for r in roles:
+        f = r.split(".")[0]
+        if f in FAMILY_OPCODES:
+            return f
+    return None
+
+
+def check_misplaced_opcode(acc, shape, v1, k, role, opc, allowed, fam):
+    fault = Fault("op", n=opc)
+    reply, exc, apdus, dev, out = run_cell(shape, {k: fault})
+    acc.evaluations += 1
+    acc.distinct_disjoint += 1
+    acc.count("cells_with_another_opcode_of_the_command")
+    case = {"shape": shape.name, "v1": v1, "k": k, "role": role,
+            "fault": ["op", None, opc, False], "prelude": None}
+
+    def bad(mech, **d):
+        d.update(shape=shape.name, step=k, role=role, opcode=opc, reply=reply,
+                 exc=repr(exc) if exc is not None else None)
+        acc.violation(mech, d, case)
+    if not isinstance(reply, dict) or type(reply.get("errorcode")) is not int:
+        return bad("no-verdict:%s:%s:another-opcode" % (shape.command, role))
+    code = reply["errorcode"]
+    if code not in allowed:
+        return bad("code-not-documented:%s:%d" % (shape.command, code))
+    answers = [e for e in apdus if e.get("data") is not None and e["apdu"] and
+               fl.role_of(e["apdu"]).split(".")[0] == fam]
+    last = answers[-1]["data"] if answers else b""
+    last_op = last[2] if len(last) > 2 else None
+    if code in (0, 1) and last_op not in SUCCESS_OPCODES[fam]:
+        return bad("success-although-the-device-last-said-opcode-%s:%s:%s" % (
+            "%02x" % last_op if last_op is not None else "none", shape.command, role))
 
 
 def check_cell(acc, shape, v1, k, role, fault, allowed, base_reply, named, by_src, fw_all):
